@@ -8,7 +8,7 @@ from asyncfix.errors import FIXError
 
 from .common import FExecType, FOrdSide, FOrdStatus, FOrdType
 
-RE_CLORD_ROOT = re.compile(r"^(.+)--(\d+)$", re.MULTILINE)
+RE_CLORD_ROOT = re.compile(r"(.+)--(\d+)", re.DOTALL)
 
 
 class FIXNewOrderSingle:
@@ -95,7 +95,7 @@ class FIXNewOrderSingle:
         Returns:
             string
         """
-        match = RE_CLORD_ROOT.match(clord_id)
+        match = RE_CLORD_ROOT.fullmatch(clord_id)
         if match:
             return match[1]
         else:
@@ -407,8 +407,14 @@ class FIXNewOrderSingle:
             #   Let's set order inactive
             self.leaves_qty = 0
 
+        if self.orig_clord_id:
+            # Cancel / replace request was rejected, order is still alive by its
+            #  previous ClOrdID (allow subsequent requests)
+            self.clord_id = self.orig_clord_id
+            self.orig_clord_id = None
+
         if new_status is not None:
-            self.status = new_status
+            self.status = FOrdStatus(new_status)
             return True
         else:
             return False
